@@ -28,7 +28,7 @@ def budget(tier):
 def _case(draw):
     prof = S.profile(max_files=3, max_services=3, max_methods=4, max_messages=6, p_resource=0.7, twin_resources=True, case_twins=True,
                      p_dep_type=0.3, p_http=0.6, p_sig=0.4, p_routing=0.1, p_paged=0.15, p_lro=0.15, p_comment=0.2, dep_only_file=True,
-                     p_subpackage=0.3, p_foreign_io=0.15, extended_operations=0.3, required_fields=True, p_required=0.35)
+                     p_subpackage=0.3, p_foreign_io=0.15, extended_operations=0.3, required_fields=True, p_required=0.35, p_host_per_service=0.3)
     api = draw(S.apis(prof))
     opts = draw(S.option_sets(snippets=True if draw(st.integers(0, 3)) else False, metadata=True))
     if draw(st.booleans()):
